@@ -180,7 +180,9 @@ func (s *V2Session) buildAndSend(ctx context.Context, c ipmi.Command) error {
 			s.confidentialityLayer,
 			&s.messageLayer,
 			serializableLayerOrEmpty(c.Request())); err != nil {
-			// this is not a retryable error
+			// this is not a retryable error; nothing was sent, so give the
+			// sequence number back
+			s.AuthenticatedSequenceNumbers.Inbound--
 			terminalErr = err
 			return nil
 		}
